@@ -731,3 +731,41 @@ func walkAllocElems(a *ssa.Alloc, walk func(ssa.Value) bool) bool {
 	}
 	return false
 }
+
+// throughHelpers looks through calls to module helpers that merely compute and return a value (one return
+// statement): it yields the value returned inside the innermost helper and a substitution that maps the helpers'
+// parameters back to the values passed by the outermost caller.
+func (w *World) throughHelpers(v ssa.Value, stopAt ...string) (ssa.Value, func(ssa.Value) ssa.Value) {
+	env := map[ssa.Value]ssa.Value{}
+	subst := func(x ssa.Value) ssa.Value {
+		for i := 0; i < 6; i++ {
+			y, ok := env[x]
+			if !ok {
+				return x
+			}
+			x = y
+		}
+		return x
+	}
+	for i := 0; i < 3; i++ {
+		c, ok := v.(*ssa.Call)
+		if !ok || c.Common().IsInvoke() {
+			break
+		}
+		h := c.Common().StaticCallee()
+		if h == nil || h.Blocks == nil || !w.isProdFunc(h) || isGeneratedFile(w.FileOf(h.Pos())) || hasSuffixAny(callName(c.Common()), stopAt...) {
+			break
+		}
+		rets := Returns(h)
+		if len(rets) != 1 || len(retVals(rets[0])) == 0 {
+			break
+		}
+		for j, p := range h.Params {
+			if j < len(c.Common().Args) {
+				env[p] = c.Common().Args[j]
+			}
+		}
+		v = retVals(rets[0])[0]
+	}
+	return v, subst
+}
